@@ -1,4 +1,24 @@
+use std::cmp::Ordering;
+
 use crate::{BoundingRect, Line, PointF, Polygon, RotatedRect, Vec2};
+
+/// Return the cross product of the vectors `a -> b` and `a -> c`.
+///
+/// This is zero if the points are collinear and otherwise its sign gives the
+/// direction of the turn `a -> b -> c`. The computation is done in `f64`, where
+/// differences and products of `f32` coordinates do not round, overflow or
+/// underflow, so the sign is reliable.
+fn orientation(a: PointF, b: PointF, c: PointF) -> f64 {
+    let (ab_x, ab_y) = (b.x as f64 - a.x as f64, b.y as f64 - a.y as f64);
+    let (ac_x, ac_y) = (c.x as f64 - a.x as f64, c.y as f64 - a.y as f64);
+    ab_x * ac_y - ab_y * ac_x
+}
+
+/// Return the squared distance between two points.
+fn sq_distance(a: PointF, b: PointF) -> f64 {
+    let (dx, dy) = (b.x as f64 - a.x as f64, b.y as f64 - a.y as f64);
+    dx * dx + dy * dy
+}
 
 /// Return the sorted subset of points from `poly` that form a convex hull
 /// containing `poly`.
@@ -22,40 +42,36 @@ pub fn convex_hull(poly: &[PointF]) -> Vec<PointF> {
         }
     };
 
-    // Compute cosine of angle between the vector `p - min_point` and the X axis.
-    let angle = |p: PointF| {
-        if p == min_point {
-            // Ensure `min_point` appears first in the `sorted_points` list.
-            f32::MIN
-        } else {
-            let x_axis = Vec2::from_yx(0., 1.);
-            min_point.vec_to(p).normalized().dot(x_axis)
-        }
-    };
-
-    // Sort points by angle between `point - min_point` and X axis. When
-    // multiple points form the same angle, keep only one furthest from
-    // `min_point`.
-    let mut sorted_points: Vec<(PointF, f32)> = poly.iter().map(|&p| (p, angle(p))).collect();
-    sorted_points.sort_by(|(a_pt, a_angle), (b_pt, b_angle)| {
-        if a_angle == b_angle {
-            let a_dist = min_point.vec_to(*a_pt).length();
-            let b_dist = min_point.vec_to(*b_pt).length();
-            a_dist.total_cmp(&b_dist)
-        } else {
-            a_angle.total_cmp(b_angle)
+    // Sort points by decreasing angle between `point - min_point` and the X
+    // axis, with `min_point` first. Angles are compared via the sign of a
+    // cross product rather than via rounded cosines, so that collinear points
+    // are always recognized as such. When multiple points form the same angle,
+    // order them by distance from `min_point`; the scan below then keeps only
+    // the furthest one.
+    let mut sorted_points: Vec<PointF> = poly.to_vec();
+    sorted_points.sort_by(|&a, &b| match (a == min_point, b == min_point) {
+        (true, true) => Ordering::Equal,
+        (true, false) => Ordering::Less,
+        (false, true) => Ordering::Greater,
+        (false, false) => {
+            let turn = orientation(min_point, a, b);
+            if turn > 0. {
+                Ordering::Less
+            } else if turn < 0. {
+                Ordering::Greater
+            } else {
+                sq_distance(min_point, a).total_cmp(&sq_distance(min_point, b))
+            }
         }
     });
-    sorted_points.dedup_by_key(|(a_point, _)| *a_point);
+    sorted_points.dedup();
 
     // Visit sorted points and keep the sequence that can be followed without
     // making any clockwise turns.
-    for &(p, _) in sorted_points.iter() {
+    for &p in sorted_points.iter() {
         while hull.len() >= 2 {
             let [prev2, prev] = [hull[hull.len() - 2], hull[hull.len() - 1]];
-            let ac = prev2.vec_to(p);
-            let bc = prev.vec_to(p);
-            let turn_dir = ac.cross_product_norm(bc);
+            let turn_dir = orientation(prev2, prev, p);
             if turn_dir > 0. {
                 // Last three points form a counter-clockwise turn.
                 break;
